@@ -201,7 +201,7 @@ Definition udp_dispatch_packet (ev : env) (s : udp_sock) (m : dmeta) (payload : 
   match src with
   | None => Ok None
   | Some src =>
-      if negb (a_ver src =? a_ver (dm_addr m)) then Panic        (* IpRepr::new: IP version mismatch *)
+      if negb (a_ver src =? a_ver (dm_addr m)) then Ok None      (* different IP versions: "dropping" *)
       else Ok (Some (mkPkt 1 src (dm_addr m) PROTO_UDP hop (u_port s) (dm_port m) payload
                            (wudp_HEADER_LEN + zlen payload)))
   end.
@@ -441,7 +441,7 @@ Definition raw_process (s : raw_sock) (r : iprepr) (payload : list Z) : outcome 
    the protocol filter, Ipv{4,6}Repr::parse; the payload is packet.payload() *)
 Definition raw_dispatch_packet (s : raw_sock) (buf : list Z) : outcome (option ippacket) :=
   match buf with
-  | [] => Panic                                         (* data[0] in IpVersion::of_packet *)
+  | [] => Ok None                                       (* "sent empty packet, dropping" *)
   | ver :: _ =>
       if (ver =? 4) || (ver =? 6) then
         let hl := ip_header_len ver in
@@ -450,6 +450,7 @@ Definition raw_dispatch_packet (s : raw_sock) (buf : list Z) : outcome (option i
           let plen := nth 5 buf 0 in
           if zlen buf <? hl + plen then Ok None         (* new_checked: shorter than total length *)
           else if opt_z_differs (r_proto s) (nth 1 buf 0) then Ok None   (* wrong ip protocol *)
+          else if nth 4 buf 0 =? 0 then Ok None         (* unspecified destination *)
           else Ok (Some (mkPkt 3 (mkA ver (nth 3 buf 0)) (mkA ver (nth 4 buf 0)) (nth 1 buf 0) (nth 2 buf 0)
                                0 0 (firstn (Z.to_nat plen) (skipn (Z.to_nat hl) buf)) plen))
       else Ok None                                      (* invalid IP version *)
